@@ -117,7 +117,7 @@ def run(pid, tier, seed, replay_path=None):
             obligations.append({"obligation": name, "result": result, **kw})
 
         if pid == "C05":
-            cfgs = [(2, 10)] if tier == "quick" else [(2, 16), (3, 11)]
+            cfgs = [(2, 10), (3, 8)] if tier == "quick" else [(2, 16), (3, 12)]
             for T, K in cfgs:
                 for spurious in ([False] if tier == "quick" else [False, True]):
                     proto = Protocol(bm, T, spurious=spurious)
@@ -314,16 +314,16 @@ EXPLAIN = {
             "an iteration that sees closing_time < now closes the market and exits (dropping its broker clone, whose Drop wakes all waiters); before that it "
             "leaves the market untouched and goes back to sleep for one period - so the market is closed at most one sleep period plus one critical section "
             "after expiry, for every thread count; it never sleeps while holding the market mutex (an unexpired timeout takes no progress away from the "
-            "workers); once closed, every worker's next pop/split_and_push/push observes it and hands out nothing (each worker stops within one block)."),
+            "workers); once closed, every worker's NEXT broker call (pop/split_and_push/push) observes it and hands out nothing. (Whether a busy worker makes another broker call at all is decided by the checker's worker loop, which is outside this check: see 'outside'.)"),
 }
 BOUNDS = {
-    "C05": {"quick": {"threads": 2, "steps": 10, "jobs_per_queue": "<=6", "generated_per_block": "<=2", "market_batches": "<=4", "invariant": "inductive: any schedule length, T=2"},
-            "thorough": {"threads": "2 (K=16), 3 (K=11)", "jobs_per_queue": "<=6", "generated_per_block": "<=2", "market_batches": "<=4", "variants": "with and without spurious wake-ups", "invariant": "inductive, T=2 and T=3"}},
+    "C05": {"quick": {"threads": "2 (K=10), 3 (K=8)", "jobs_per_queue": "<=6", "generated_per_block": "<=2", "market_batches": "<=4", "invariant": "inductive: any schedule length, T=2 and T=3"},
+            "thorough": {"threads": "2 (K=16), 3 (K=12)", "jobs_per_queue": "<=6", "generated_per_block": "<=2", "market_batches": "<=4", "variants": "with and without spurious wake-ups", "invariant": "inductive, T=2 and T=3"}},
     "C12": {"quick": {"paths": "all paths of one loop iteration of the timeout thread, arbitrary market state and clock"}, "thorough": {"paths": "same (the check is not bounded in schedule length)"}},
 }
 OUTSIDE = {
     "C05": ["equality of the evaluated state set / verdicts with the single-threaded run (needs check_block + DashMap arbitration; see C01)", "more than 3 worker threads, longer schedules for the BMC obligations", "memory-model effects (all shared state is mutex-protected)", "OS scheduling fairness; the timeout stop reason (see C12)"],
-    "C12": ["HasDiscoveries::matches / finish_when, target_state_count, target_max_depth wiring in the worker closures and BFS depth completeness (checker loops)", "simulation seeding (RNG + HashSet) and the simulation checker's own shutdown flag", "wall-clock accuracy of real sleeps"],
+    "C12": ["that a busy worker calls the broker again after expiry: the worker loops only call split_and_push when pending.len() > 1 && thread_count > 1, so a single-threaded run, or a frontier that never exceeds one state, never observes the closed market on an unbounded model (seen by reading and by a seeded-change demonstration; not decided by this check)", "HasDiscoveries::matches / finish_when, target_state_count, target_max_depth wiring in the worker closures and BFS depth completeness (checker loops)", "simulation seeding (RNG + HashSet) and the simulation checker's own shutdown flag", "wall-clock accuracy of real sleeps"],
 }
 ASSUME = [
     "crate `log` replaced by a model whose macros expand to nothing",
